@@ -3,7 +3,8 @@
 
   ops (see harness/C15.cpp):
     consts
-    sl  <c|x> <cap> <op>...                      sline op history
+    sl  <c|x> <cap> <op>...                      sline op history (ext tokens: N<int>:<hex>, c, s<len>,<cur>)
+    lc  <c|x> <cap> <depth> <maxlen> <keys-hex>  keys through readline_putchar, then readline_linecpy
     rl  <c|x> <cap> <depth> <keys-hex>           readline_putchar per key
     vt  <c|x> <cap> <depth> <echo> <keys-hex>    vterm per key
     vtx <c|x> <cap> <depth> <alpha> <L> <prefix-hex>
